@@ -60,7 +60,7 @@ func (e *GRPCEndpointExpr) EvalName() string {
 
 // Prepare initializes the Request and Response if nil.
 func (e *GRPCEndpointExpr) Prepare() {
-	if e.Request == nil {
+	if e.Request == nil || e.Request.Type == nil {
 		e.Request = &AttributeExpr{Type: Empty}
 	}
 	if e.Request.Validation == nil {
